@@ -270,7 +270,7 @@ pub(super) fn globsets_match(
 
 #[cfg(kani)]
 #[path = "/verif/harness/rip-tools/builtins__mod.rs"]
-mod verif_kani;
+pub mod verif_kani;
 
 #[cfg(test)]
 mod tests {
